@@ -66,7 +66,10 @@ C04(r, x) == <<
     <<"C04:unk_is_special", r.kind = "char" => x.unk < r.vs>>,
     <<"C04:single_regular_id_decodes_to_its_bytes",
         \A id \in 0..(x.nreg - 1) :
-            (id + 1 <= Len(r.vocab) /\ r.utf8[id + 1]) => r.dec1[id + 1] = r.vocab[id + 1]>>
+            id + 1 <= Len(r.vocab) =>
+                \* a token that is text decodes to its bytes; one that is not (a lone byte >= 0x80) may fail to decode, but never
+                \* decodes to other bytes
+                IF r.utf8[id + 1] THEN r.dec1[id + 1] = r.vocab[id + 1] ELSE r.dec1[id + 1] = NONE>>
     >>
 
 \* ---- per text -----------------------------------------------------------------
